@@ -334,6 +334,12 @@ def correspond(ctx):
            'kinds': {'kernels': len(names), 'hand_models': 4}}
     if r2['failing']: out['first_disagreement'] = [meta[i] for i in r2['failing'][:3]]
     elif res['failing']: out['first_disagreement'] = res.get('first_disagreement')
+    # the subdivision itself as REGENERATED from utils/intersectionsmixin.py (Gen/CurveCurve.v: a Fixpoint on fuel for each pair of curve
+    # classes, `assert` / unset boxes as exceptions, the lazy filter as a fold over the dict), equal to the hand model by Proofs/Bridge4.v
+    kernels.merge_cross_check(out, 'C06', ['Quad__curve_curve_intersections_t_Quad', 'Quad__curve_curve_intersections_t_Cubic', 'Cubic__curve_curve_intersections_t_Quad',
+        'Cubic__curve_curve_intersections_t_Cubic', 'Quad__curve_curve_intersections_Quad', 'Cubic__curve_curve_intersections_Cubic', 'Line_intersections_Line',
+        'Line_intersections_Quad', 'Line_intersections_Cubic', 'Quad_intersections_Line', 'Quad_intersections_Quad', 'Quad_intersections_Cubic', 'Cubic_intersections_Line',
+        'Cubic_intersections_Quad', 'Cubic_intersections_Cubic'], ctx.n(10, 150), rng)
     return out
 
 
